@@ -45,6 +45,8 @@ impl TxIds {
 }
 
 pub struct Exec {
+    /// handles a caller keeps: the Arcs returned by add / update / listings stay alive during the case
+    pub held: Vec<Arc<Order>>,
     pub lvl: Arc<PriceLevel>,
     pub generator: Arc<UuidGenerator>,
     /// E-conc: the threads' programs of the case being assembled
@@ -152,6 +154,7 @@ impl Exec {
     }
     pub fn new() -> Self {
         Exec {
+            held: Vec::new(),
             lvl: Arc::new(PriceLevel::new(0)),
             generator: Arc::new(UuidGenerator::new(Uuid::from_u128(NS))),
             cprog: Vec::new(),
@@ -233,6 +236,7 @@ impl Exec {
             ["new", p] => {
                 let Ok(p) = p.parse::<u64>() else { return false };
                 self.lvl = Arc::new(PriceLevel::new(p));
+                self.held.clear();
                 self.generator = Arc::new(UuidGenerator::new(Uuid::from_u128(NS)));
                 self.txids.ns = Uuid::from_u128(NS);
                 self.cprog.clear();
@@ -281,6 +285,7 @@ impl Exec {
                     Ok(r) => {
                         self.n_adds += 1;
                         self.emit(line, format!("add ret={}", show_order(&r)));
+                        self.held.push(r);
                         self.judge_stats();
                     }
                     Err(_) => self.emit(line, "PANIC"),
@@ -336,6 +341,8 @@ impl Exec {
             ["upd", rest @ ..] => {
                 let Some(u) = parse_update(rest) else { return false };
                 let pre = listing(&self.lvl);
+                // the caller still looks at what it read before amending
+                self.held.extend(self.lvl.iter_orders());
                 let removal = match u {
                     pricelevel::OrderUpdate::Cancel { .. } => true,
                     pricelevel::OrderUpdate::UpdatePrice { new_price, .. } => new_price != self.price,
@@ -351,7 +358,9 @@ impl Exec {
                         if removal && o.is_some() {
                             self.n_removed += 1;
                         }
-                        format!("ok={}", show_opt_order(o.as_deref()))
+                        let tok = format!("ok={}", show_opt_order(o.as_deref()));
+                        self.held.extend(o);
+                        tok
                     }
                     Ok(Err(pricelevel::PriceLevelError::InvalidOperation { .. })) => "err=SamePrice".to_string(),
                     Ok(Err(e)) => format!("err=Other:{}", e.to_string().replace(' ', "_")),
@@ -466,6 +475,30 @@ impl Exec {
                             use std::str::FromStr;
                             PriceLevel::from_str(&lvl.to_string()).map_err(|e| e.to_string())
                         }
+                        // the same JSON reaching serde by other roads: a `Value`, a reader, and the same document with
+                        // the characters of every string written as \uXXXX escapes (no borrowed strings possible)
+                        "serde-value" => serde_json::to_value(lvl).map_err(|e| e.to_string())
+                            .and_then(|v| serde_json::from_value::<PriceLevel>(v).map_err(|e| e.to_string())),
+                        "serde-reader" => serde_json::to_vec(lvl).map_err(|e| e.to_string())
+                            .and_then(|b| serde_json::from_reader::<_, PriceLevel>(std::io::Cursor::new(b)).map_err(|e| e.to_string())),
+                        "json-escaped" => lvl.snapshot_to_json().map_err(|e| e.to_string())
+                            .and_then(|j| PriceLevel::from_snapshot_json(&crate::jsonc::escape_strings(&j)).map_err(|e| e.to_string())),
+                        "serde-escaped" => serde_json::to_string(lvl).map_err(|e| e.to_string())
+                            .and_then(|j| serde_json::from_str::<PriceLevel>(&crate::jsonc::escape_strings(&j)).map_err(|e| e.to_string())),
+                        // aggregates that lie while the order count is right
+                        "lying-count-ok" => {
+                            let mut s2 = snap.clone();
+                            s2.visible_quantity = s2.visible_quantity.wrapping_add(6);
+                            s2.hidden_quantity = s2.hidden_quantity.wrapping_add(11);
+                            match self.issued % 3 {
+                                0 => PriceLevel::from_snapshot(s2).map_err(|e| e.to_string()),
+                                1 => Ok(PriceLevel::from(&s2)),
+                                _ => pricelevel::PriceLevelSnapshotPackage::new(s2)
+                                    .and_then(|p| p.to_json())
+                                    .and_then(|j| PriceLevel::from_snapshot_json(&j))
+                                    .map_err(|e| e.to_string()),
+                            }
+                        }
                         "lying-snapshot" => {
                             let mut s2 = snap.clone();
                             s2.visible_quantity = s2.visible_quantity.wrapping_add(17);
@@ -566,6 +599,42 @@ impl Exec {
                         ("q.pop", []) => format!("q.pop {}", show_opt_order(self.queue.pop().as_deref())),
                         ("q.find", [id]) => format!("q.find {}", show_opt_order(self.queue.find(parse_id(id)?).as_deref())),
                         ("q.remove", [id]) => format!("q.remove {}", show_opt_order(self.queue.remove(parse_id(id)?).as_deref())),
+                        ("q.rt", [route]) => {
+                            // a second queue built from this one by the named road; this one stays as it is
+                            use std::str::FromStr;
+                            let e = |x: serde_json::Error| x.to_string();
+                            let built: Result<OrderQueue, String> = match *route {
+                                "vec" => Ok(OrderQueue::from_vec(self.queue.to_vec())),
+                                "from" => Ok(OrderQueue::from(self.queue.to_vec())),
+                                "text" => OrderQueue::from_str(&self.queue.to_string()).map_err(|x| x.to_string()),
+                                "json" => serde_json::to_string(&self.queue).and_then(|j| serde_json::from_str(&j)).map_err(e),
+                                "json-value" => serde_json::to_value(&self.queue).and_then(serde_json::from_value).map_err(e),
+                                "json-reader" => serde_json::to_vec(&self.queue)
+                                    .and_then(|b| serde_json::from_reader(std::io::Cursor::new(b))).map_err(e),
+                                "json-escaped" => serde_json::to_string(&self.queue)
+                                    .and_then(|j| serde_json::from_str(&crate::jsonc::escape_strings(&j))).map_err(e),
+                                _ => return None,
+                            };
+                            match built {
+                                Err(_) => "q.rt err".to_string(),
+                                Ok(q2) => {
+                                    let mut v: Vec<Order> = q2.to_vec().iter().map(|a| **a).collect();
+                                    canon_sort(&mut v);
+                                    let n = q2.len();
+                                    let mut drained: Vec<Order> = Vec::new();
+                                    while let Some(o) = q2.pop() {
+                                        drained.push(*o);
+                                        if drained.len() > n + 8 { break; }
+                                    }
+                                    canon_sort(&mut drained);
+                                    if drained != v {
+                                        format!("q.rt drained-differs {}", show_list(&drained, show_order))
+                                    } else {
+                                        format!("q.rt ok {} {}", show_list(&v, show_order), n)
+                                    }
+                                }
+                            }
+                        }
                         ("q.len", []) => format!("q.len {}", self.queue.len()),
                         ("q.isempty", []) => format!("q.isempty {}", if self.queue.is_empty() { 1 } else { 0 }),
                         ("q.tovec", []) => {
@@ -608,6 +677,13 @@ impl Exec {
                 self.emit(format!("json.enc {ty} {v}"), format!("json {}", crate::codec::hex(&text)));
                 let out = crate::jsonc::dec_by_type(ty, &text).unwrap_or_else(|| "?".into());
                 self.emit(format!("json.dec {ty} {}", crate::codec::hex(&text)), format!("jparsed {out}"));
+                // the same text through a `Value`, through a reader, and with its strings escaped
+                for route in 1..=3u8 {
+                    let o2 = crate::jsonc::dec_by_type_road(ty, &text, route).unwrap_or_else(|| "?".into());
+                    if o2 != out {
+                        self.emit(format!("json.dec {ty} {}", crate::codec::hex(&text)), format!("jparsed road{route} {o2}"));
+                    }
+                }
                 // a level's aggregates are derived and its listing canonical
                 let want = if *ty == "leveldata" { crate::jsonc::leveldata_expect(v) } else { v.to_string() };
                 self.emit(format!("judge.C17 {ty} {want} {out}"), "J C17 ok");
